@@ -288,6 +288,11 @@ func (r *Report) Finish() int {
 	}
 	body, _ := json.MarshalIndent(ev, "", " ")
 	dir := filepath.Join(Root(), "evidence")
+	if d := os.Getenv("VERIF_EVIDENCE_DIR"); d != "" {
+		// runs against another checkout than /repo (seeded changes, snapshots) must not
+		// overwrite the committed evidence
+		dir = d
+	}
 	_ = os.MkdirAll(dir, 0o755)
 	out := filepath.Join(dir, r.Property+".json")
 	if p := os.Getenv("VERIF_PART_OUT"); p != "" {
